@@ -115,7 +115,7 @@ class C13(Check):
                 for strand in (1, -1, 0):
                     out.append(("stream", w, eol, strand))
         for buf in b["long_buffers"]:
-            for what in ("index", "fwd", "rev", "gap", "single-line"):
+            for what in ("index", "index-2widths", "fwd", "rev", "gap", "single-line"):
                 out.append(("long", buf, what))
         return out
 
@@ -123,7 +123,9 @@ class C13(Check):
     def check_index(self, seq, w, eol, fnl, ctx):
         install_monitors()
         eolb = b"\r\n" if eol == "CRLF" else b"\n"
-        data, exp = fm.make_fasta([("r1", seq, w), ("r2", seq[::-1], w)], eolb, fnl)
+        # second record wider and longer than the first: per-record state (line width, flush rhythm) must be reset
+        w2 = 8 if w != 8 else 3
+        data, exp = fm.make_fasta([("r1", seq, w), ("r2", seq[::-1] * 3, w2)], eolb, fnl)
         runs = [m.end() - m.start() for m in __import__("re").finditer(rb"[A]+|[n]+", seq)]
         bufs = buffer_set(w, [len(seq), *runs])
         ref = None
@@ -140,7 +142,7 @@ class C13(Check):
             except Exception as e:  # noqa: BLE001
                 ctx.violation(f"index-raises:{type(e).__name__}", case, repr(e))
                 continue
-            line = min(w, len(seq))
+            line = max(min(w, len(seq)), min(w2, 3 * len(seq)))
             if MON["hwm"] > buf + line:
                 ctx.violation("index-buffer-exceeds-bound", case, f"high-water {MON['hwm']} > buffer {buf} + line {line}")
             obs = (
@@ -216,9 +218,22 @@ class C13(Check):
             return None
         if MON["hwm"] > buf:
             ctx.violation("stream-bytesio-exceeds-buffer", case, f"high-water {MON['hwm']} > buffer {buf}")
+        # a second stream from the same index object with another gap character
+        out2 = io.BytesIO()
+        try:
+            FastaStream(out2, fi, line_length=4, gap_character=b"n").write_scaffold(scffld)
+            want2 = fm.expected_stream(dict(c03.RECS), [("s", rr)], 4).replace(b"N", b"\0")
+            seqs_n = {k: v.replace(b"N", b"\1") for k, v in c03.RECS}
+            want2 = fm.expected_stream(seqs_n, [("s", rr)], 4).replace(b"N", b"n").replace(b"\1", b"N")
+            # (sequence Ns are kept; only gap rows use the gap character; complement of N is N)
+            if all(r[0] == "G" or r[4] != -1 for r in rr) and out2.getvalue() != want2:
+                ctx.violation("gap-character-second-stream", case, f"got {out2.getvalue()!r} expected {want2!r}")
+        except Exception as e:  # noqa: BLE001
+            ctx.violation(f"stream-raises:{type(e).__name__}", case, repr(e))
+        return out.getvalue() + b"|" + out2.getvalue()
         if mon.get("max_read", 0) > buf or mon.get("unbounded_reads"):
             ctx.violation("read-exceeds-buffer", case, f"{mon!r} buffer {buf}")
-        return out.getvalue()
+        return out.getvalue()  # (not reached)
 
     # ------------------------------------------------------------------
     def check_long(self, buf, what, ctx):
@@ -236,13 +251,28 @@ class C13(Check):
             assert len(unit) == 60
             with path.open("wb") as fh:
                 fh.write(b">chr1\n")
-                if what == "single-line":
+                if what == "index-2widths":
+                    fh.write(b"AC\nGT\nAC\n>chrL\n")
+                    wide = unit * 16 + b"ACGTACGTAC" * 4  # 1000 residues per line
+                    fh.write((wide + b"\n") * (n // 1000))
+                elif what == "single-line":
                     fh.write(unit * (n // 60) + b"\n")
                 else:
                     line = unit + b"\n"
                     fh.write(line * (n // 60))
                 fh.write(b">chr2\nACGT\n")
             total = (n // 60) * 60
+            if what == "index-2widths":
+                tracemalloc.start()
+                idx, asm = index_fasta_file(path, buf)
+                _, peak = tracemalloc.get_traced_memory()
+                tracemalloc.stop()
+                ctx.extra[f"peak_{what}_{buf}"] = peak
+                if idx["chrL"].length != (n // 1000) * 1000 or idx["chr1"].length != 6:
+                    ctx.violation("long-index-wrong", case, f"{idx!r}")
+                if peak > limit + 4 * 1000:
+                    ctx.violation("index-memory-exceeds-bound", case, f"peak {peak} > {limit + 4000}")
+                return
             if what in ("index", "single-line"):
                 tracemalloc.start()
                 idx, asm = index_fasta_file(path, buf)
